@@ -305,6 +305,49 @@ def Skel.step (thr : Rat) (s : Skel) : SkelOp → Skel
 
 def Skel.run (thr : Rat) (s : Skel) (ops : List SkelOp) : Skel := ops.foldl (Skel.step thr) s
 
+/-! ### merged pipe properties (`_series_merge_properties`, `_parallel_merge_properties`) over an abstract number type and power function -/
+
+/-- the literals of the code: `4.87`, `1.85`, `0.54`, `2.63` -/
+structure MergeExp (α : Type) where
+  a : α
+  b : α
+  e : α
+  c : α
+
+section mergeprops
+variable {α : Type} [Add α] [Mul α] [Div α] [Neg α]
+
+/-- `(L/(D**4.87))**0.54 * ((L0/((D0**4.87)*(C0**1.85))) + (L1/((D1**4.87)*(C1**1.85))))**-0.54` with `L = L0 + L1` and `D` the
+dominant pipe's diameter -/
+def seriesRough (pw : α → α → α) (x : MergeExp α) (L0 D0 C0 L1 D1 C1 D : α) : α :=
+  pw ((L0 + L1) / pw D x.a) x.e * pw (L0 / (pw D0 x.a * pw C0 x.b) + L1 / (pw D1 x.a * pw C1 x.b)) (-x.e)
+
+/-- `((L**0.54)/(D**2.63)) * ((C0*(D0**2.63))/(L0**0.54) + (C1*(D1**2.63))/(L1**0.54))` with `L`, `D` of the dominant pipe -/
+def parallelRough (pw : α → α → α) (x : MergeExp α) (L0 D0 C0 L1 D1 C1 L D : α) : α :=
+  (pw L x.e / pw D x.c) * ((C0 * pw D0 x.c) / pw L0 x.e + (C1 * pw D1 x.c) / pw L1 x.e)
+
+/-- one pipe as the two functions read it -/
+structure MPipe (α : Type) where
+  length : α
+  diam : α
+  rough : α
+  minor : α
+  status : Nat
+
+/-- `_select_dominant_pipe` (`ge` is `>=` on diameters), `_series_merge_properties` -/
+def seriesProps (pw : α → α → α) (x : MergeExp α) (ge : α → α → Bool) (p0 p1 : MPipe α) : MPipe α :=
+  let d := if ge p0.diam p1.diam then p0 else p1
+  { length := p0.length + p1.length, diam := d.diam, minor := d.minor, status := d.status,
+    rough := seriesRough pw x p0.length p0.diam p0.rough p1.length p1.diam p1.rough d.diam }
+
+/-- `_parallel_merge_properties` -/
+def parallelProps (pw : α → α → α) (x : MergeExp α) (ge : α → α → Bool) (p0 p1 : MPipe α) : MPipe α :=
+  let d := if ge p0.diam p1.diam then p0 else p1
+  { length := d.length, diam := d.diam, minor := d.minor, status := d.status,
+    rough := parallelRough pw x p0.length p0.diam p0.rough p1.length p1.diam p1.rough d.length d.diam }
+
+end mergeprops
+
 /-- `self.wn.num_junctions` -/
 def Skel.junctionCount (s : Skel) : Nat := (s.nodes.filter (fun n => n.kind == .junction)).length
 
